@@ -1,9 +1,10 @@
 use crate::engine::Property;
 
 pub mod c01;
+pub mod c03;
 
 pub fn all() -> Vec<Box<dyn Property>> {
-    vec![Box::new(c01::C01)]
+    vec![Box::new(c01::C01), Box::new(c03::C03)]
 }
 
 pub fn by_id(id: &str) -> Option<Box<dyn Property>> {
